@@ -48,6 +48,15 @@ def parents(p):
     return [b"/".join(parts[:i]) for i in range(1, len(parts))]
 
 
+class _NoIgnore:
+    """view of the state in which .goitignore is not a candidate for random edits
+    (its content stays inside the domain the properties quantify over)"""
+
+    def __init__(self, st):
+        self.__dict__.update(st.__dict__)
+        self.files = [f for f in st.files if f != b".goitignore"]
+
+
 class State:
     """what the generator may look at: the last observed snapshot"""
 
@@ -101,6 +110,11 @@ def pick_paths(rng, st, prof, kind):
 
 def gen_edit(rng, st, prof):
     r = rng.random()
+    if prof.get("ignore") and r < 0.06:
+        import runner
+        return Edit("write", b".goitignore", rng.choice(runner.IGNORE_FILES))
+    st_files = st.files
+    st = _NoIgnore(st)
     if st.files and r < 0.25:
         return Edit("write", rng.choice(st.files), content(rng))            # modify
     if st.files and r < 0.32:
